@@ -85,3 +85,11 @@ def run(ctx, rep):
     rep.floor("R19c-insert", k, 2, "insertions into sample_list")
     w = writer(fx, rep)
     rep.floor("R19d", w, 3, "Err(OutOfResources) constructions in DataWriterEntity::write_w_timestamp")
+    # R27d (shared with C27): the writer's KEEP_LAST history never holds more than depth samples per instance because both write
+    # paths evict when len == depth; DataWriterEntity::write_w_timestamp skips the max_samples_per_instance test for KEEP_LAST on
+    # that assumption
+    from rules.c27 import depth_tests
+    b1 = fx.fn("DcpsDomainParticipant", "write_w_timestamp")
+    b2 = fx.fn("DcpsDomainParticipant", "process_pending_write_samples")
+    nd = depth_tests(fx, rep, [b1, b2])
+    rep.floor("R27d", nd, 3, "samples.len() vs depth comparisons on the write path")
